@@ -153,3 +153,31 @@ func hasKind(u *Universe, d *Desc, ks string, seen map[int]bool) bool {
 	}
 	return false
 }
+
+// nestedOversize keeps every enclosing size right but makes one NESTED item announce far more than its list holds
+// (2^62 bytes, 256 MiB, or 2^40): the "element is larger than containing list" check must reject it on every kind of stream.
+func nestedOversize(g *hx.Gen, b []byte) ([]byte, bool) {
+	root, rest, ok := parseRLP(b)
+	if !ok || len(rest) != 0 || !root.list {
+		return nil, false
+	}
+	var all []*rnode
+	root.nodes(&all)
+	if len(all) < 2 {
+		return nil, false
+	}
+	n := all[1+g.Rng.Intn(len(all)-1)]
+	tag := byte(0xB7)
+	if n.list {
+		tag = 0xF7
+	}
+	switch g.Rng.Intn(3) {
+	case 0:
+		n.raw = []byte{tag + 8, 0x40, 0, 0, 0, 0, 0, 0, 0}
+	case 1:
+		n.raw = []byte{tag + 4, 0x10, 0, 0, 0}
+	default:
+		n.raw = []byte{tag + 6, 0x01, 0, 0, 0, 0, 0}
+	}
+	return root.enc(), true
+}
